@@ -17,7 +17,10 @@ VARIABLES c, str
 (* ---- booleans ---------------------------------------------------------- *)
 TrueWords == {"1", "t", "true", "on", "y", "yes"}
 FalseWords == {"0", "f", "false", "off", "n", "no"}
-NearMiss == {"", "tru", "yess", "2", "01", "o n", "truefalse", "none", "nope", "-1", "1.0", "t.", "of"}
+NearMiss == {"", "tru", "yess", "2", "01", "o n", "truefalse", "none", "nope", "-1", "1.0", "t.", "of",
+             \* spellings that only case FOLDING (not lower-casing) would turn into a documented word: the ff ligature,
+             \* the long s (gamma: U+FB00, U+017F) - they are not the documented words
+             "off_ligature", "yes_long_s", "false_long_s"}
 Casing == {"lower", "UPPER", "Title", "mIxEd"}
 Padding == {"none", "left", "right", "both", "tabs_newline"}
 Defaults == {"False", "True", "None", "sentinel"}
@@ -52,7 +55,12 @@ IntLits == {[t |-> "0", v |-> 0, canon |-> TRUE], [t |-> "7", v |-> 7, canon |->
             [t |-> "7.0", v |-> NoInt, canon |-> FALSE], [t |-> "1e3", v |-> NoInt, canon |-> FALSE],
             [t |-> "0x1", v |-> NoInt, canon |-> FALSE], [t |-> "", v |-> NoInt, canon |-> FALSE],
             [t |-> "seven", v |-> NoInt, canon |-> FALSE], [t |-> "7_", v |-> NoInt, canon |-> FALSE],
-            [t |-> "__7", v |-> NoInt, canon |-> FALSE], [t |-> "1__0", v |-> NoInt, canon |-> FALSE]}
+            [t |-> "__7", v |-> NoInt, canon |-> FALSE], [t |-> "1__0", v |-> NoInt, canon |-> FALSE],
+            \* beyond the machine word: Python integers have no size, neither have these helpers.  The value is a
+            \* stand-in (TLC integers are 32-bit): only its position relative to the bounds matters; gamma renders
+            \* the token as the named power
+            [t |-> "2^63", v |-> 2147483647, canon |-> TRUE], [t |-> "2^64", v |-> 2147483646, canon |-> TRUE],
+            [t |-> "-2^63-1", v |-> -2147483647, canon |-> TRUE], [t |-> "10^30", v |-> 2147483645, canon |-> TRUE]}
 \* how the literal is handed over: as str, or (for canonical ones) as the int itself
 IntForms == {"str", "int"}
 Bounds == {"none", "10", "20"}
